@@ -12,8 +12,8 @@ ASSUMPTIONS = [
 ]
 
 
-def correspondence(ctx, thorough, search):
-    out = os.path.join(ctx.work, "search" if search else "corr")
+def correspondence(ctx, thorough, search, prop="C18", sub=""):
+    out = os.path.join(ctx.work, ("search" if search else "corr") + sub)
     n = 600 if thorough else 40
     rc, o, dt = core.sh([core.vh(), "c18", out, str(ctx.seed + (777 if search else 0)), str(n)], timeout=3000)
     if rc != 0:
@@ -29,7 +29,7 @@ def correspondence(ctx, thorough, search):
                 dis.append({"code": c, "meaning": "first differing section = code-100" if c > 100 else "verdicts differ", "file": os.path.basename(f), "case_index": i})
     ov = [{"class": v["class"], "what": v["what"], "input": {"module_hex": v.get("input")},
            "replay_cmd": "parse <module_hex> with walrus, perform the edit named in `what` with a body `i32.const 24301; drop; <results>`, emit, validate"}
-          for v in meta.get("oracle_violations", []) if "C18" in v.get("props", "").split()]
+          for v in meta.get("oracle_violations", []) if prop in v.get("props", "").split()]
     cov = {"evaluations": meta["cases"], "distinct_nontrivial": meta["cases"],
            "rule": "corpus + fixtures mentioning imports/calls/elements + attribute cross-product modules with at least one imported or exported function; for EVERY imported function replace_imported_func, for EVERY exported local function replace_exported_func, and for 1 in 6 of the others an edit that must be refused; replacement body with or without use of the arguments, trapping or returning",
            "samples": meta["samples"], "traces_validated_against_impl": n_eval,
